@@ -47,6 +47,8 @@ type Gen struct {
 	subIDs     map[string]int
 	specSigs   map[string]specSig
 	specAxioms []string
+	pkgDefaults map[string]map[string][]string
+	synth      map[string]*Contract
 }
 
 type anyCtor struct {
@@ -90,7 +92,7 @@ func loadProgram(repo string) (*Gen, error) {
 		srcCache: map[string][]byte{}, otherTids: map[string]int{},
 		modsets: map[*ssa.Function]*ModSet{}, contracts: map[string]*Contract{},
 		globalsDecl: map[string]*GlobalDecl{}, abstracted: map[string]int{},
-		compSorts: map[string]string{}, subIDs: map[string]int{}, specSigs: map[string]specSig{},
+		pkgDefaults: map[string]map[string][]string{}, synth: map[string]*Contract{}, compSorts: map[string]string{}, subIDs: map[string]int{}, specSigs: map[string]specSig{},
 	}
 	for _, p := range spkgs {
 		if p != nil {
